@@ -126,9 +126,11 @@ def _read_powers(M, q, T, D):
     return ps
 
 
-def run_cfg(method, n, orders):
+def run_cfg(method, n, orders, rulecls='LogRule', group_fmt='cfg[%s,n=%d]/order=%d/', names=('fd', 'ex'), diffwrap=None, requested_order=True):
+    """rulecls / diffwrap let C04 run the same obligations for LogHessdiagRule (vector quotients restricted to one
+    coordinate)"""
     info = dict(configs=[])
-    with fd_env() as m:
+    with fd_env(names=names) as m:
         fd = m['fd']
         S2 = list(CTX.const_facts.values())
         q = real('q')
@@ -136,20 +138,21 @@ def run_cfg(method, n, orders):
         QH = [q.t > 0, q.t < 1]
         rule0 = None
         for order in orders:
-            solve.GROUP[0] = 'cfg[%s,n=%d]/order=%d/' % (method, n, order)
+            solve.GROUP[0] = group_fmt % (method, n, order)
             CTX.reset()
             fd.FD_RULES = SymKeyDict()
             n_before = len(PINV_LOG)
             # one rule object per (method, n), re-configured through its `order` attribute for every further order
             # (the configuration is whatever the attributes say at the time of the call)
             if order == orders[0] or rule0 is None:
-                rule0 = fd.LogRule(n=n, method=method, order=order)
+                rule0 = getattr(fd, rulecls)(n=n, method=method, order=order)
             else:
                 rule0.order = order
             rule = rule0
             mo, rs = rule.method_order, rule.richardson_step
             # H: requested order honoured (property sentence 1: truncation order at least the requested order)
-            solve.fact('H:method_order>=order', mo >= order, note='method_order=%d order=%d' % (mo, order))
+            if requested_order:
+                solve.fact('H:method_order>=order', mo >= order, note='method_order=%d order=%d' % (mo, order))
             solve.fact('H2:method_order>=order-(step-1)', mo >= order - (rs - 1) and mo >= 1,
                        note='rounding loses less than one Richardson step')
             D = n + mo - 1
@@ -208,7 +211,7 @@ def run_cfg(method, n, orders):
                 cv = solve.closed_value(cj[j])
                 solve.fact('B:c%d-nonzero-constant' % j, cv is not None and cv != 0)
             # ---- C: Taylor structure of the selected quotient at an arbitrary step
-            diff = rule.diff
+            diff = rule.diff if diffwrap is None else diffwrap(rule.diff)
             taus, f, b, x = _taus(diff, D, S2)
             hsym = real('hh')
             quot = lift(diff(f, f(x), x, hsym))
